@@ -1081,6 +1081,35 @@ pub fn suite_script(ctx: &mut Ctx) {
         for stack in [Stack::Replace, Stack::Compact, Stack::CompactReplace, Stack::ReplaceMutRef, Stack::CompactReplaceMutRef] {
             check_script(ctx, stack, &old, &new, &s);
         }
+        // the same script with adjacent delete+insert pairs already merged into `replace` calls by the producer:
+        // the adapters' own `replace` entry points (Replace::replace; Compact falls back to the default)
+        if i % 3 == 0 {
+            let mut m: Vec<Call> = vec![];
+            let mut k = 0;
+            while k < s.len() {
+                match (s[k], s.get(k + 1)) {
+                    // only where the adapter has nothing pending: `Replace::replace` forwards at once without flushing a
+                    // pending delete/insert (a `[delete, replace]` input comes out reordered -- outside C10's quantifier,
+                    // which speaks of equal/delete/insert calls; recorded in DESIGN.md section 6 as an observation)
+                    (Call::Delete(o, l, n), Some(&Call::Insert(_, n2, l2)))
+                        if n2 == n && !matches!(m.last(), Some(Call::Delete(..)) | Some(Call::Insert(..))) && rng.chance(2, 3) =>
+                    {
+                        m.push(Call::Replace(o, l, n, l2));
+                        k += 2;
+                    }
+                    _ => {
+                        m.push(s[k]);
+                        k += 1;
+                    }
+                }
+            }
+            if m.iter().any(|c| matches!(c, Call::Replace(..))) {
+                ctx.count("script.with_replace_calls");
+                for stack in [Stack::Replace, Stack::Compact, Stack::CompactReplace, Stack::ReplaceMutRef] {
+                    check_script(ctx, stack, &old, &new, &m);
+                }
+            }
+        }
     }
 }
 
